@@ -46,6 +46,10 @@ def main(tier, replay=None):
         return c.finish(TRUSTED, no_input_break="extraction/OCaml build of the Keys model failed: " + err[-1500:])
 
     n = 110 if tier == "quick" else 1500
+
+    if c.escalated:   # a modelled Go function changed since the pin (c.drift): look harder, no verdict from drift alone
+
+        n *= 3
     impl = os.path.join(c.workdir, "impl.txt")
     if replay:
         rp = json.load(open(replay))
